@@ -180,6 +180,7 @@ func TestC20(t *testing.T) {
 	rapid.Check(t, func(t *rapid.T) {
 		cfg := acceptedCfg(t)
 		cfg.PIllegal = 5
+		cfg.PBadLit = gen.Pick(t, "pbadlit", []int{0, 0, 3})
 		p, _ := gen.GenProg(t, cfg)
 		var c caseC20
 		var feats []string
